@@ -52,10 +52,10 @@ class Band(scen.Follower):
         super().__init__(s, bells, None)
 
     def tick(self, s, t):
-        bot = getattr(s, "bot", None)
-        if bot is not None and bot._is_ringing and bot._place < len(bot._row):
-            bell = bot._row[bot._place].number
-            key = (bot._row_number, bot._place, id(bot._row))
+        v = s.view
+        if v.ringing and v.turn is not None:
+            row, place, bell, _ = v.turn
+            key = (v.touch, row, place)
             if bell in self.bells and key not in self.done:
                 self.done.add(key)
                 lag = self.rng.choice(self.lags)
@@ -65,8 +65,7 @@ class Band(scen.Follower):
         s.push(t + self.poll, "internal", lambda tt: self.tick(s, tt))
 
     def strike(self, s, t, bell):
-        bot = getattr(s, "bot", None)
-        if bot is not None and bot._is_ringing:
+        if s.view.ringing:
             s.human_strike(t, bell)
 
 
